@@ -86,3 +86,55 @@ def search(res, tier, rng):
                     res.violation("strict-mode extract returned OK with altered bytes after corrupting byte %d (%s)" % (pos, region), sc.text(), key="cab-tamper-accepted")
     res.oblige("search: no corrupted checksummed block accepted with different content (%d corrupted cabinets)" % (len(scns) - nsets), nviol == 0)
     if len(res.samples) < 5: res.samples.append(scns[1].text()[:300] + "...")
+
+
+def search_sets(res, tier, rng):
+    """the same for cabinet sets: one corrupted payload byte in any part, including the fragments of blocks split across two cabinets
+    (a leading fragment carries its own checksum); strict mode, parts joined in order, every member extracted"""
+    from vlib import gen
+    ok, log, exe = vlib.build_impl("asan")
+    if not ok: return
+    nsets = 3 if tier == "quick" else 40; per = 30 if tier == "quick" else 150
+    scns = []; meta = []
+    for s_ in range(nsets):
+        c = gen.cab_set(rng); parts = [c.files[nm] for nm in c.parts]
+        def scn_for(ps):
+            sc = scenario.Scn()
+            for k, b in enumerate(ps): sc.file("in%d.cab" % k, b)
+            sc.op("cab_new")
+            for k in range(len(ps)): sc.op("cab_open", "c%d" % k, "in%d.cab" % k)
+            for k in range(1, len(ps)): sc.op("cab_append", "c%d" % (k - 1), "c%d" % k)
+            for i in range(len(c.members)): sc.op("cab_extract", "c0", i, "out%d" % i)
+            return sc
+        scns.append(scn_for(parts)); meta.append(("orig", None, c.members))
+        cand = []        # (part, block offset, cbytes, dres, is leading fragment)
+        for k, pb in enumerate(parts):
+            try: bl = _blocks(pb)
+            except Exception: continue
+            for (q, cb, dres, ck) in bl:
+                if ck != 0 and cb > 0: cand.append((k, q, cb, dres, struct.unpack_from("<H", pb, q + 6)[0] == 0))
+        lead = [x for x in cand if x[4]]
+        if not cand: continue
+        for j in range(per):
+            k, q, cb, dres, isl = rng.choice(lead) if (lead and j % 2 == 0) else rng.choice(cand)
+            pos = q + 8 + dres + rng.randrange(cb)
+            bad = bytearray(parts[k]); bad[pos] ^= rng.choice([1, 0x80, 0xFF, 1 << rng.randrange(8)])
+            ps = list(parts); ps[k] = bytes(bad)
+            scns.append(scn_for(ps)); meta.append(("set-fragment" if isl else "set-block", (k, pos), c.members))
+    trs = scenario.run_scenarios(exe, scns)
+    nviol = 0; ntam = 0
+    for t, (region, where, mem), sc in zip(trs, meta, scns):
+        res.evaluations += 1
+        if t.crash:
+            res.violation("sanitizer report / crash on a cabinet set with one corrupted byte: " + t.crash[-300:], sc.text() + "\n# " + t.crash[-1500:], key="crash"); continue
+        for o in [o for o in t.ops if o.name == "cab_extract"]:
+            i = int(o.outname[3:]); want = mem[i].data.hex()
+            if region == "orig":
+                if not (o.kv.get("st") == "0" and (o.out or "") == want): res.oblige("generator sanity: uncorrupted set extracts (member %d)" % i, False, str(o.kv))
+            else:
+                if o.kv.get("st") == "0" and (o.out or "") != want:
+                    nviol += 1
+                    res.violation("strict-mode extract from a joined set returned OK with altered bytes after corrupting byte %d of part %d (%s)" % (where[1], where[0], region), sc.text(), key="cab-tamper-accepted")
+                    break
+        if region != "orig": ntam += 1; res.nontrivial.add((region, where)); res.count("tamper:" + region)
+    res.oblige("search: no corrupted checksummed block or block fragment of a cabinet set accepted with different content (%d corrupted sets)" % ntam, nviol == 0)
